@@ -19,7 +19,7 @@ _counter = [0]
 
 
 def channels(tier):
-    ch = ["lowlevel", "path", "path.gz", "fileobj", "lowlevel+ignore"]
+    ch = ["lowlevel", "path", "path.gz", "fileobj", "lowlevel+ignore", "second-generation", "helpers"]
     if tier == "thorough":
         ch += ["path.bz2", "path.lz4", "path.zst"]
     return ch
@@ -42,6 +42,19 @@ def _feed(w, records):
             w.write(r)
 
 
+def _feed_part(w, part, records):
+    """_feed for a slice of the case's records (refused-write indices refer to the whole list)."""
+    index = {id(r): i for i, r in enumerate(records)}
+    for r in part:
+        if index[id(r)] in XFAIL[0]:
+            try:
+                w.write(r)
+            except (UnicodeError, ValueError, TypeError):
+                pass
+        else:
+            w.write(r)
+
+
 def roundtrip(records, channel):
     from flow.record import RecordReader, RecordStreamReader, RecordStreamWriter, RecordWriter
 
@@ -51,6 +64,48 @@ def roundtrip(records, channel):
 
         with ignore_fields_for_comparison(["_generated", "x", "a", "n"]):
             return roundtrip(records, "lowlevel")
+    if channel == "second-generation":
+        # what a tool does that reads a stream and writes it on: the records that were READ are written again and read again
+        first = roundtrip(records, "lowlevel")
+        buf = io.BytesIO()
+        w = RecordStreamWriter(buf)
+        for r in first:
+            w.write(r)
+        w.flush()
+        return list(RecordStreamReader(io.BytesIO(buf.getvalue())))
+    if channel == "helpers":
+        # the less used doors: pathlib.Path targets, the stream(src, dst) copy helper, record_stream() over two source files
+        import pathlib
+
+        from flow.record import record_stream
+        from flow.record.base import stream as copy_stream
+
+        _counter[0] += 1
+        base = os.path.join(os.environ["VERIF_SCRATCH"], "c01-%d-%d" % (os.getpid(), _counter[0]))
+        paths = [base + "-a.records", base + "-b.records.gz", base + "-c.records"]
+        try:
+            half = len(records) // 2
+            skipped = [i for i in XFAIL[0]]
+            keep = [r for i, r in enumerate(records) if i not in skipped]
+            for p, part in ((paths[0], records[:half]), (paths[1], records[half:])):
+                w = RecordWriter(pathlib.Path(p))
+                _feed_part(w, part, records)
+                w.flush()
+                w.close()
+            w = RecordWriter(paths[2])
+            copy_stream(record_stream([paths[0], pathlib.Path(paths[1])]), w)
+            w.close()
+            rd = RecordReader(pathlib.Path(paths[2]))
+            out = list(rd)
+            rd.close()
+            del keep
+            return out
+        finally:
+            for p in paths:
+                try:
+                    os.unlink(p)
+                except OSError:
+                    pass
     if channel == "lowlevel":
         buf = io.BytesIO()
         w = RecordStreamWriter(buf)
